@@ -88,22 +88,33 @@ Definition choices_shape (e : aentry) : bool :=
 
 Definition argv_entry_ok (e : aentry) : bool :=
   flag_ok (ae_flag e) && choices_shape e &&
-  match a_lookup MAIN (ae_flag e) with Some e' => aentry_same e' e | None => false end &&
+  match a_lookup (ae_table e) (ae_flag e) with Some e' => aentry_same e' e | None => false end &&
   match a_lookup B"help" (ae_flag e) with None => true | Some _ => false end.
 
 Definition main_opt (e : aentry) : bool := main_scalar e || main_array e.
 
-Lemma argv_entries_ok : forallb argv_entry_ok (filter main_opt argv_table) = true.
+(* an option of any table that is bound to a Config method *)
+Definition cfg_opt (e : aentry) : bool :=
+  is_config (ae_target e) && match ae_kind e with KBare | KParam | KOptParam | KChoices | KOptChoices => true | _ => false end.
+
+Lemma main_opt_cfg_opt : forall e, main_opt e = true -> cfg_opt e = true /\ ae_table e = MAIN.
+Proof.
+  intros [tbl flag kind choices target] H. unfold main_opt, main_scalar, main_array, cfg_opt in *. cbn [ae_table ae_flag ae_kind ae_target] in *.
+  apply orb_true_iff in H. destruct H as [H|H]; repeat (apply andb_true_iff in H; destruct H as [H ?]);
+    apply bstr_eqb_eq in H; subst; split; try reflexivity; apply andb_true_iff; split; assumption.
+Qed.
+
+Lemma argv_entries_ok : forallb argv_entry_ok (filter cfg_opt argv_table) = true.
 Proof. vm_compute. reflexivity. Qed.
 
 (* an option word whose flag is a known main flag: parseArgs finds the entry and applies its checks *)
 Lemma a_step_option : forall files sole s c X flag have param e,
-  flag_ok flag = true -> a_table s = MAIN ->
-  a_lookup MAIN flag = Some e -> a_lookup B"help" flag = None ->
+  flag_ok flag = true ->
+  a_lookup (a_table s) flag = Some e -> a_lookup B"help" flag = None ->
   match split_eq_from1 (c :: X) with Some (f, p) => (f, true, p) | None => (c :: X, false, []) end = (flag, have, param) ->
   a_step files sole (45 :: 45 :: c :: X) s = inl (a_apply files e have param s).
 Proof.
-  intros files sole s c X flag have param e Hf Ht Hl Hh Hs.
+  intros files sole s c X flag have param e Hf Hl Hh Hs.
   unfold a_step.
   replace (bstr_eqb (45 :: 45 :: c :: X) B"--") with false by (cbn; reflexivity).
   replace (strip_dashes (45 :: 45 :: c :: X)) with (Some (c :: X)) by (cbn; reflexivity).
@@ -123,40 +134,37 @@ Proof.
   unfold flag_ok in Hf. repeat (apply andb_true_iff in Hf; destruct Hf as [Hf ?]).
   apply negb_true_iff in H. rewrite H.
   apply negb_true_iff in Hf. apply negb_true_iff in H1. rewrite Hf, H1. cbn [orb].
-  rewrite Ht. rewrite Hl. reflexivity.
+  rewrite Hl. reflexivity.
 Qed.
 
 Definition rej_kind (e : aentry) : N := match ae_kind e with KBare => 3 | _ => 2 end.
 
-Lemma main_opt_inv : forall e, main_opt e = true ->
-  ae_table e = MAIN /\ (exists obj meth, ae_target e = TConfig obj meth) /\
+Lemma cfg_opt_inv : forall e, cfg_opt e = true ->
+  (exists obj meth, ae_target e = TConfig obj meth) /\
   (ae_kind e = KBare \/ ae_kind e = KParam \/ ae_kind e = KOptParam \/ ae_kind e = KChoices \/ ae_kind e = KOptChoices).
 Proof.
-  intros [tbl flag kind choices target] H. unfold main_opt, main_scalar, main_array in H. cbn [ae_table ae_flag ae_kind ae_target] in *.
-  assert (H' : bstr_eqb tbl B"main" = true /\ is_config target = true /\
-               match kind with KBare | KParam | KOptParam | KChoices | KOptChoices => true | _ => false end = true).
-  { apply orb_true_iff in H. destruct H as [H|H]; repeat (apply andb_true_iff in H; destruct H as [H ?]); auto. }
-  destruct H' as [H1 [H2 H3]]. apply bstr_eqb_eq in H1. split; [exact H1|]. split.
+  intros [tbl flag kind choices target] H. unfold cfg_opt in H. cbn [ae_table ae_flag ae_kind ae_target] in *.
+  apply andb_true_iff in H. destruct H as [H2 H3]. split.
   - destruct target; simpl in H2; try discriminate. eauto.
   - destruct kind; try discriminate; tauto.
 Qed.
 
-(* every word the specification writes for a main option is read back by the parser as that option with that value *)
+(* every word the specification writes for an option is read back by the parser (in that option's table) as that option with that value *)
 Lemma a_step_word : forall e v s files sole,
-  main_opt e = true -> argv_entry_ok e = true -> a_table s = MAIN ->
+  cfg_opt e = true -> argv_entry_ok e = true -> a_table s = ae_table e ->
   a_step files sole (word_of e v) s =
   inl (match opt_denote e v with Some c => AOk (a_emit c s) | None => AErr s (rej_kind e) end).
 Proof.
   intros e v s files sole Hm Hok Ht.
-  destruct (main_opt_inv e Hm) as [Htbl [[obj [meth Htg]] Hk]].
+  destruct (cfg_opt_inv e Hm) as [[obj [meth Htg]] Hk].
   unfold argv_entry_ok in Hok.
   apply andb_true_iff in Hok; destruct Hok as [Hok Hhelp].
   apply andb_true_iff in Hok; destruct Hok as [Hok Hlook].
   apply andb_true_iff in Hok; destruct Hok as [Hflag Hshape].
-  destruct (a_lookup MAIN (ae_flag e)) as [e'|] eqn:Hl; try discriminate.
+  destruct (a_lookup (ae_table e) (ae_flag e)) as [e'|] eqn:Hl; try discriminate.
   apply aentry_same_eq in Hlook. subst e'.
   destruct (a_lookup B"help" (ae_flag e)) eqn:Hh; try discriminate.
-  destruct e as [tbl flag kind choices target]. cbn [ae_table ae_flag ae_kind ae_choices ae_target] in *. subst tbl target.
+  destruct e as [tbl flag kind choices target]. cbn [ae_table ae_flag ae_kind ae_choices ae_target] in *. subst target.
   assert (Hne : exists c fl, flag = c :: fl).
   { unfold flag_ok in Hflag. destruct flag; [cbn in Hflag; discriminate|eauto]. }
   destruct Hne as [c [fl ->]].
@@ -164,12 +172,12 @@ Proof.
   { pose proof Hflag as Hf2. unfold flag_ok in Hf2. repeat (apply andb_true_iff in Hf2; destruct Hf2 as [Hf2 ?]). assumption. }
   (* the two word shapes *)
   assert (W1 : a_step files sole (45 :: 45 :: c :: fl) s =
-               inl (a_apply files (mk_aentry MAIN (c :: fl) kind choices (TConfig obj meth)) false [] s)).
-  { apply a_step_option with (flag := c :: fl); [exact Hflag|exact Ht|exact Hl|exact Hh|].
+               inl (a_apply files (mk_aentry tbl (c :: fl) kind choices (TConfig obj meth)) false [] s)).
+  { apply a_step_option with (flag := c :: fl); [exact Hflag|rewrite Ht; exact Hl|exact Hh|].
     rewrite (split_none c fl Hnoeq). reflexivity. }
   assert (W2 : forall v, a_step files sole (45 :: 45 :: c :: (fl ++ 61 :: v)) s =
-               inl (a_apply files (mk_aentry MAIN (c :: fl) kind choices (TConfig obj meth)) true v s)).
-  { intros v0. apply a_step_option with (flag := c :: fl); [exact Hflag|exact Ht|exact Hl|exact Hh|].
+               inl (a_apply files (mk_aentry tbl (c :: fl) kind choices (TConfig obj meth)) true v s)).
+  { intros v0. apply a_step_option with (flag := c :: fl); [exact Hflag|rewrite Ht; exact Hl|exact Hh|].
     change (c :: fl ++ 61 :: v0) with ((c :: fl) ++ 61 :: v0). rewrite (split_app c fl v0 Hnoeq). reflexivity. }
   unfold word_of, opt_denote, rej_kind, choices_shape in *. cbn [ae_table ae_flag ae_kind ae_choices ae_target] in *.
   change (B"--" ++ (c :: fl) ++ ?x) with (45 :: 45 :: c :: (fl ++ x)).
@@ -269,12 +277,12 @@ Proof. destruct a, b; simpl; intros H; try discriminate; auto. apply okind_eqb_e
 
 (* the string handler generated for a key does what the manual's table says for that option *)
 Lemma j_scalar_apply_denote : forall e je x s,
-  main_opt e = true -> choices_shape e = true ->
+  cfg_opt e = true -> choices_shape e = true ->
   je_target je = ae_target e -> je_kind je = JScalar (json_kind_of (ae_kind e)) -> je_choices je = ae_choices e ->
   j_scalar_apply je x s = match opt_denote e x with Some c => JOk (j_emit c s) | None => JErr s (EFront (jrej_kind e)) end.
 Proof.
   intros e je x s Hm Hshape Ht Hk Hc.
-  destruct (main_opt_inv e Hm) as [_ [[obj [meth Htg]] Hkind]].
+  destruct (cfg_opt_inv e Hm) as [[obj [meth Htg]] Hkind].
   unfold j_scalar_apply, opt_denote, jrej_kind. rewrite Ht, Hk, Hc, Htg.
   destruct Hkind as [ -> | [ -> | [ -> | [ -> | -> ] ] ] ]; cbn [json_kind_of].
   - destruct x; cbn; reflexivity.
@@ -333,7 +341,7 @@ Proof.
 Qed.
 
 Lemma j_handle_str : forall e p x s,
-  main_opt e = true -> choices_shape e = true -> scalar_ok_on (j_entries p) e = true ->
+  cfg_opt e = true -> choices_shape e = true -> scalar_ok_on (j_entries p) e = true ->
   j_handle p (JJStr x) s = match opt_denote e x with Some c => JOk (j_emit c s) | None => JErr s (EFront (jrej_kind e)) end.
 Proof.
   intros e p x s Hm Hshape Hok.
@@ -359,12 +367,16 @@ Proof.
   induction cs; simpl; intros s; [reflexivity|]. rewrite IHcs. destruct s; simpl. rewrite <- app_assoc. reflexivity.
 Qed.
 
+Lemma a_emits_fields : forall cs s, a_table (a_emits cs s) = a_table s /\ a_gave_input (a_emits cs s) = a_gave_input s /\
+                                    a_gave_output (a_emits cs s) = a_gave_output s.
+Proof. induction cs; simpl; intros s; [auto|]. destruct (IHcs (a_emit a s)) as [H1 [H2 H3]]. rewrite H1, H2, H3. destruct s; auto. Qed.
+
 Lemma a_emits_app : forall c1 c2 s, a_emits (c1 ++ c2) s = a_emits c2 (a_emits c1 s).
 Proof. induction c1; simpl; intros c2 s; [reflexivity|apply IHc1]. Qed.
 
 (* the words of one (possibly repeated) main option *)
-Lemma a_loop_vals : forall files sole e, main_opt e = true -> argv_entry_ok e = true ->
-  forall vs rest s, a_table s = MAIN ->
+Lemma a_loop_vals : forall files sole e, cfg_opt e = true -> argv_entry_ok e = true ->
+  forall vs rest s, a_table s = ae_table e ->
   a_loop files sole (map (word_of e) vs ++ rest) s =
   let (cs, ok) := denote_vals e vs in
   if ok then a_loop files sole rest (a_emits cs s)
@@ -419,7 +431,7 @@ Lemma a_step_empty : forall files sole s, a_table s = MAIN ->
 Proof.
   intros files sole s Ht. destruct lookup_empty as [H1 [H2 _]].
   change (B"--empty") with (45 :: 45 :: 101 :: [109; 112; 116; 121]).
-  rewrite (a_step_option files sole s 101 [109; 112; 116; 121] B"empty" false [] E_EMPTY); auto.
+  rewrite (a_step_option files sole s 101 [109; 112; 116; 121] B"empty" false [] E_EMPTY); auto. rewrite Ht. exact H1.
 Qed.
 
 Lemma a_step_replace : forall files sole s, a_table s = MAIN ->
@@ -428,9 +440,8 @@ Proof.
   intros files sole s Ht. destruct lookup_empty as [_ [_ [H1 H2]]].
   change (B"--replace-input") with (45 :: 45 :: 114 :: [101; 112; 108; 97; 99; 101; 45; 105; 110; 112; 117; 116]).
   rewrite (a_step_option files sole s 114 [101; 112; 108; 97; 99; 101; 45; 105; 110; 112; 117; 116] B"replace-input" false [] E_REPLACE); auto.
+  rewrite Ht. exact H1.
 Qed.
-
-Definition item_rej (it : item) : N := match it with IOpt e _ | IArr e _ => rej_kind e | _ => 0 end.
 
 Definition a_after (it : item) (s : astate) : astate :=
   match it with
@@ -439,69 +450,141 @@ Definition a_after (it : item) (s : astate) : astate :=
   | _ => s
   end.
 
-Lemma entry_ok_of_wf : forall e, In e argv_table -> main_opt e = true -> argv_entry_ok e = true.
+Lemma entry_ok_of_wf : forall e, In e argv_table -> cfg_opt e = true -> argv_entry_ok e = true.
 Proof.
   intros e Hin Hm. pose proof argv_entries_ok as H. rewrite forallb_forall in H. apply H. apply filter_In. auto.
 Qed.
 
 Lemma wf_item_main_opt : forall it e, (exists v, it = IOpt e v) \/ (exists vs, it = IArr e vs) -> wf_item argv_table it ->
-  In e argv_table /\ main_opt e = true.
+  In e argv_table /\ cfg_opt e = true /\ ae_table e = MAIN.
 Proof.
-  intros it e [[v ->]|[vs ->]] H; simpl in H; destruct H as [H1 H2]; split; auto; unfold main_opt; rewrite H2; auto using orb_true_r.
+  intros it e [[v ->]|[vs ->]] H; simpl in H; destruct H as [H1 H2]; split; auto; apply main_opt_cfg_opt; unfold main_opt; rewrite H2; auto using orb_true_r.
+Qed.
+
+Lemma sub_opt_cfg_opt : forall t e, sub_opt t e = true -> cfg_opt e = true /\ ae_table e = t.
+Proof.
+  intros t e H. unfold sub_opt, cfg_opt in *. repeat (apply andb_true_iff in H; destruct H as [H ?]).
+  apply bstr_eqb_eq in H. split; [apply andb_true_iff; split; assumption|exact H].
+Qed.
+
+(* ---- the options of a nested table, between the word that opens the table and "--" *)
+Definition wf_subs (t : bstr) (l : list (aentry * bstr)) : Prop := Forall (fun p => In (fst p) argv_table /\ sub_opt t (fst p) = true) l.
+
+Lemma a_loop_subs : forall files sole t l, wf_subs t l ->
+  forall rest s, a_table s = t ->
+  exists k, a_loop files sole (map (fun p => word_of (fst p) (snd p)) l ++ rest) s =
+  if snd (denote_subs l) then a_loop files sole rest (a_emits (fst (denote_subs l)) s)
+  else mk_fe_res (rev' (a_calls (a_emits (fst (denote_subs l)) s))) (EFront k).
+Proof.
+  intros files sole t. induction l as [|[e v] l IH]; intros Hwf rest s Ht.
+  - exists 0. reflexivity.
+  - pose proof (Forall_inv Hwf) as [Hin Hsub]. pose proof (Forall_inv_tail Hwf) as Hl. cbn [fst snd] in *.
+    destruct (sub_opt_cfg_opt _ e Hsub) as [Hm Htb].
+    pose proof (entry_ok_of_wf e Hin Hm) as Hok.
+    cbn [map app a_loop denote_subs fst snd].
+    rewrite (a_step_word e v s files sole Hm Hok (eq_trans Ht (eq_sym Htb))).
+    destruct (opt_denote e v) as [c|].
+    + destruct (IH Hl rest (a_emit c s)) as [k Hk]. { destruct s; exact Ht. }
+      exists k. rewrite Hk. destruct (denote_subs l) as [cs ok]. cbn. reflexivity.
+    + exists (rej_kind e). reflexivity.
+Qed.
+
+Lemma close_table_fields : forall t c s,
+  a_table (a_set_table t (a_emit c s)) = t /\ a_gave_input (a_set_table t (a_emit c s)) = a_gave_input s /\
+  a_gave_output (a_set_table t (a_emit c s)) = a_gave_output s /\ a_calls (a_set_table t (a_emit c s)) = c :: a_calls s.
+Proof. intros t c s. destruct s. cbn. auto. Qed.
+
+Definition E_GLOBAL := mk_aentry MAIN B"global" KBare [] (TManual B"argGlobal").
+Definition E_END_GLOBAL := mk_aentry B"global" B"--" KEnd [] (TManual B"argEndGlobal").
+Lemma lookup_global : a_lookup MAIN B"global" = Some E_GLOBAL /\ a_lookup B"help" B"global" = None /\
+                      a_lookup B"global" B"--" = Some E_END_GLOBAL.
+Proof. vm_compute. repeat split; reflexivity. Qed.
+
+Lemma a_step_global : forall files sole s, a_table s = MAIN ->
+  a_step files sole B"--global" s = inl (AOk (a_set_table B"global" (a_set_acc [] (a_emit (CCall C_MAIN B"global" []) s)))).
+Proof.
+  intros files sole s Ht. destruct lookup_global as [H1 [H2 _]].
+  change (B"--global") with (45 :: 45 :: 103 :: [108; 111; 98; 97; 108]).
+  rewrite (a_step_option files sole s 103 [108; 111; 98; 97; 108] B"global" false [] E_GLOBAL); auto. rewrite Ht. exact H1.
+Qed.
+
+Lemma a_step_end_global : forall files sole s, a_table s = B"global" ->
+  a_step files sole B"--" s = inl (AOk (a_set_table MAIN (a_emit (CCall C_GLOBAL B"endGlobal" []) s))).
+Proof.
+  intros files sole s Ht. destruct lookup_global as [_ [_ H3]].
+  unfold a_step. change (bstr_eqb B"--" B"--") with true. cbv beta iota. rewrite Ht.
+  change (bstr_eqb B"global" MAIN) with false. cbv beta iota. rewrite H3. reflexivity.
 Qed.
 
 (* one item of a job: the parser makes exactly the calls of its denotation (and stops with a usage error iff it is not acceptable) *)
 Lemma a_loop_item : forall files sole it rest s gi go,
   wf_item argv_table it -> a_inv s gi go -> pos_ok it gi go = true ->
-  a_loop files sole (argv_of_item it ++ rest) s =
-  (if snd (denote_item it) then a_loop files sole rest (a_after it (a_emits (fst (denote_item it)) s))
-   else mk_fe_res (rev' (a_calls (a_emits (fst (denote_item it)) s))) (EFront (item_rej it))) /\
-  a_inv (a_after it (a_emits (fst (denote_item it)) s)) (fst (pos_next it gi go)) (snd (pos_next it gi go)).
+  exists k s', (snd (denote_item it) = true -> a_inv s' (fst (pos_next it gi go)) (snd (pos_next it gi go))) /\
+               a_calls s' = rev (fst (denote_item it)) ++ a_calls s /\
+               a_loop files sole (argv_of_item it ++ rest) s =
+               if snd (denote_item it) then a_loop files sole rest s' else mk_fe_res (rev' (a_calls s')) (EFront k).
 Proof.
   intros files sole it rest s gi go Hwf [Ht [Hgi Hgo]] Hpos.
-  destruct it as [e v|e vs|f|f| |].
+  destruct it as [e v|e vs|f|f| | |l].
   - (* IOpt *)
-    destruct (wf_item_main_opt (IOpt e v) e (or_introl (ex_intro _ v eq_refl)) Hwf) as [Hin Hm].
-    pose proof (entry_ok_of_wf e Hin Hm) as Hok.
+    destruct (wf_item_main_opt (IOpt e v) e (or_introl (ex_intro _ v eq_refl)) Hwf) as [Hin [Hm Htb]].
+    pose proof (entry_ok_of_wf e Hin Hm) as Hok. rewrite <- Htb in Ht.
     pose proof (a_loop_vals files sole e Hm Hok [v] rest s Ht) as H. cbn [map app] in H. cbn [argv_of_item app].
-    rewrite H. cbn [denote_vals denote_item]. destruct (opt_denote e v) as [c|]; cbn.
-    + split; [reflexivity|]. destruct s; unfold a_inv in *; cbn in *; auto.
-    + split; [reflexivity|]. unfold a_inv; auto.
+    rewrite H. cbn [denote_vals denote_item]. rewrite Htb in Ht. destruct (opt_denote e v) as [c|]; cbn.
+    + exists 0, (a_emit c s). split; [intros _; destruct s; unfold a_inv in *; cbn in *; auto|]. split; [destruct s; reflexivity|reflexivity].
+    + exists (rej_kind e), s. split; [unfold a_inv; auto|]. split; reflexivity.
   - (* IArr *)
-    destruct (wf_item_main_opt (IArr e vs) e (or_intror (ex_intro _ vs eq_refl)) Hwf) as [Hin Hm].
-    pose proof (entry_ok_of_wf e Hin Hm) as Hok.
+    destruct (wf_item_main_opt (IArr e vs) e (or_intror (ex_intro _ vs eq_refl)) Hwf) as [Hin [Hm Htb]].
+    pose proof (entry_ok_of_wf e Hin Hm) as Hok. rewrite <- Htb in Ht.
     cbn [argv_of_item denote_item]. rewrite (a_loop_vals files sole e Hm Hok vs rest s Ht).
-    destruct (denote_vals e vs) as [cs ok]. cbn [fst snd a_after item_rej pos_next].
-    split; [destruct ok; reflexivity|]. apply a_emits_inv. unfold a_inv; auto.
+    destruct (denote_vals e vs) as [cs ok]. cbn [fst snd pos_next]. rewrite Htb in Ht.
+    exists (rej_kind e), (a_emits cs s). split; [intros _; apply a_emits_inv; unfold a_inv; auto|]. split; [apply a_emits_calls|].
+    destruct ok; reflexivity.
   - (* IIn *)
     cbn [pos_ok] in Hpos. apply andb_true_iff in Hpos. destruct Hpos as [Hg Hp]. apply negb_true_iff in Hg. subst gi.
-    cbn [argv_of_item app a_loop denote_item fst snd a_emits a_after pos_next].
+    cbn [argv_of_item app a_loop denote_item fst snd pos_next].
     rewrite (a_step_positional files sole f s Hp Ht). rewrite a_manual_positional. rewrite Hg. cbn [negb].
-    split.
-    + destruct s; cbn in *; subst; reflexivity.
-    + destruct s; unfold a_inv; cbn in *; subst; auto.
+    exists 0, (a_set_gave true (a_gave_output s) (a_emit (CCall C_MAIN B"inputFile" [f]) s)).
+    split; [intros _; destruct s; unfold a_inv; cbn in *; subst; auto|]. split; [destruct s; reflexivity|reflexivity].
   - (* IOut *)
     cbn [pos_ok] in Hpos. apply andb_true_iff in Hpos. destruct Hpos as [Hg Hp]. apply andb_true_iff in Hg. destruct Hg as [Hg1 Hg2].
     apply negb_true_iff in Hg2. subst gi go.
-    cbn [argv_of_item app a_loop denote_item fst snd a_emits a_after pos_next].
+    cbn [argv_of_item app a_loop denote_item fst snd pos_next].
     rewrite (a_step_positional files sole f s Hp Ht). rewrite a_manual_positional. rewrite Hg1, Hg2. cbn [negb].
-    split.
-    + destruct s; cbn in *; subst; reflexivity.
-    + destruct s; unfold a_inv; cbn in *; subst; auto.
+    exists 0, (a_set_gave true true (a_emit (CCall C_MAIN B"outputFile" [f]) s)).
+    split; [intros _; destruct s; unfold a_inv; cbn in *; subst; auto|]. split; [destruct s; reflexivity|reflexivity].
   - (* IEmpty *)
-    cbn [argv_of_item app a_loop denote_item fst snd a_emits a_after pos_next].
-    rewrite (a_step_empty files sole s Ht). split.
-    + destruct s; cbn in *; subst; reflexivity.
-    + destruct s; unfold a_inv; cbn in *; subst; auto.
+    cbn [argv_of_item app a_loop denote_item fst snd pos_next].
+    rewrite (a_step_empty files sole s Ht).
+    exists 0, (a_set_gave true (a_gave_output s) (a_emit (CCall C_MAIN B"emptyInput" []) s)).
+    split; [intros _; destruct s; unfold a_inv; cbn in *; subst; auto|]. split; [destruct s; reflexivity|reflexivity].
   - (* IReplace *)
-    cbn [argv_of_item app a_loop denote_item fst snd a_emits a_after pos_next].
-    rewrite (a_step_replace files sole s Ht). split.
-    + destruct s; cbn in *; subst; reflexivity.
-    + destruct s; unfold a_inv; cbn in *; subst; auto.
+    cbn [argv_of_item app a_loop denote_item fst snd pos_next].
+    rewrite (a_step_replace files sole s Ht).
+    exists 0, (a_set_gave (a_gave_input s) true (a_emit (CCall C_MAIN B"replaceInput" []) s)).
+    split; [intros _; destruct s; unfold a_inv; cbn in *; subst; auto|]. split; [destruct s; reflexivity|reflexivity].
+  - (* IGlobal *)
+    cbn [wf_item] in Hwf. fold (wf_subs B"global" l) in Hwf.
+    cbn [argv_of_item app a_loop denote_item pos_next fst snd].
+    rewrite (a_step_global files sole s Ht).
+    set (s1 := a_set_table B"global" (a_set_acc [] (a_emit (CCall C_MAIN B"global" []) s))).
+    assert (Ht1 : a_table s1 = B"global") by (destruct s; reflexivity).
+    rewrite <- app_assoc. cbn [app].
+    destruct (a_loop_subs files sole B"global" l Hwf (B"--" :: rest) s1 Ht1) as [k Hk].
+    destruct (denote_subs l) as [cs ok]. cbn [fst snd] in *.
+    destruct (a_emits_fields cs s1) as [F1 [F2 F3]].
+    destruct ok.
+    + exists 0, (a_set_table MAIN (a_emit (CCall C_GLOBAL B"endGlobal" []) (a_emits cs s1))).
+      destruct (close_table_fields MAIN (CCall C_GLOBAL B"endGlobal" []) (a_emits cs s1)) as [G1 [G2 [G3 G4]]].
+      split.
+      { intros _. unfold a_inv. rewrite G1, G2, G3, F2, F3. unfold s1. destruct s; cbn in *. auto. }
+      split.
+      { rewrite G4. rewrite a_emits_calls. unfold s1. destruct s; cbn. rewrite rev_app_distr. cbn. rewrite <- app_assoc. reflexivity. }
+      etransitivity; [exact Hk|]. cbn [a_loop]. rewrite (a_step_end_global files sole (a_emits cs s1)) by (rewrite F1; exact Ht1). reflexivity.
+    + exists k, (a_emits cs s1). split; [discriminate|].
+      split; [|exact Hk].
+      rewrite a_emits_calls. unfold s1. destruct s; cbn. rewrite app_nil_r. rewrite <- app_assoc. reflexivity.
 Qed.
-
-Lemma a_after_calls : forall it s, a_calls (a_after it s) = a_calls s.
-Proof. intros it s. destruct it, s; reflexivity. Qed.
 
 Definition CHECK : cfg_call := CCall C_MAIN B"checkConfiguration" [].
 
@@ -518,27 +601,29 @@ Proof.
   intros files sole. induction j as [|it j IH]; intros s gi go Hwf Hpos Hinv.
   - unfold res_is. cbn [render_argv flat_map denote_items fst snd a_loop]. destruct Hinv as [Ht _]. rewrite Ht.
     rewrite bstr_eqb_refl. rewrite rev'_rev. cbn [rev app]. reflexivity.
-  - inversion Hwf as [|? ? Hit Hj]; subst.
+  - pose proof (Forall_inv Hwf) as Hit. pose proof (Forall_inv_tail Hwf) as Hj.
     cbn [wf_pos] in Hpos. apply andb_true_iff in Hpos. destruct Hpos as [Hp1 Hp2].
     cbn [render_argv flat_map].
-    destruct (a_loop_item files sole it (flat_map argv_of_item j) s gi go Hit Hinv Hp1) as [Heq Hinv'].
+    destruct (a_loop_item files sole it (flat_map argv_of_item j) s gi go Hit Hinv Hp1) as [k [s' [Hinv' [Hcalls Heq]]]].
     rewrite Heq. cbn [denote_items].
     destruct (denote_item it) as [cs ok] eqn:Hd. cbn [fst snd] in *.
     destruct ok.
-    + specialize (IH _ _ _ Hj Hp2 Hinv'). fold (render_argv j).
-      rewrite a_after_calls, a_emits_calls in IH. rewrite rev_app_distr, rev_involutive in IH.
+    + specialize (IH _ _ _ Hj Hp2 (Hinv' eq_refl)). fold (render_argv j).
+      rewrite Hcalls in IH. rewrite rev_app_distr, rev_involutive in IH.
       destruct (denote_items j) as [cs2 ok2]. cbn [fst snd] in *.
       unfold res_is in *. destruct ok2.
       * rewrite IH. rewrite <- !app_assoc. reflexivity.
-      * destruct IH as [k IH]. exists k. rewrite IH. rewrite <- !app_assoc. reflexivity.
-    + unfold res_is. exists (item_rej it). rewrite rev'_rev, a_emits_calls, rev_app_distr, rev_involutive. reflexivity.
+      * destruct IH as [k2 IH]. exists k2. rewrite IH. rewrite <- !app_assoc. reflexivity.
+    + unfold res_is. exists k. rewrite rev'_rev, Hcalls, rev_app_distr, rev_involutive. reflexivity.
 Qed.
 
 (* FULL STATEMENT of nested_equivalent (DESIGN §5 C19): for every abstract job over ALL option tables (main options and the nested
    tables pages, encrypt, overlay/underlay, attachments, global, set-page-labels) the two front ends make the same Config calls.
    PROVED below for jobs made of: every main-table option bound to a Config method (given once, or repeatable) with ANY value
-   string (acceptable or not), the positional input/output files, --empty and --replace-input.  Not covered by the proof (covered
-   by the model/implementation and end-to-end runs): the nested tables, whose hand-written handlers are modelled in Sys/JobFront.v. *)
+   string (acceptable or not), the positional input/output files, --empty and --replace-input, and the nested table --global ... -- /
+   "global": {...} with any of its options and any values.  Not covered by the proof (covered by the model/implementation
+   correspondence and the end-to-end runs): the nested tables pages, encrypt, overlay/underlay, attachments, set-page-labels, whose
+   hand-written handlers are modelled in Sys/JobFront.v. *)
 Lemma argv_refines_spec_partial_lemma : forall files j, wf_job argv_table j ->
   res_is (front_argv files (render_argv j)) [] (fst (denote_items j)) (snd (denote_items j)).
 Proof.
@@ -669,7 +754,7 @@ Proof.
   unfold j_begin_array, j_end_array. rewrite H1, H2. split; reflexivity.
 Qed.
 
-Lemma arr_go_vals : forall e p, main_opt e = true -> choices_shape e = true -> scalar_ok_on (j_entries p) e = true ->
+Lemma arr_go_vals : forall e p, cfg_opt e = true -> choices_shape e = true -> scalar_ok_on (j_entries p) e = true ->
   forall vs s,
   arr_go p (map JJStr vs) s =
   if snd (denote_vals e vs) then JOk (j_emits (fst (denote_vals e vs)) s)
@@ -703,6 +788,136 @@ Proof.
   intros. rewrite j_handle_str_eq. unfold j_string_at. rewrite H. rewrite H0. reflexivity.
 Qed.
 
+Lemma argv_ok_shape : forall e, argv_entry_ok e = true -> choices_shape e = true.
+Proof.
+  intros e H. unfold argv_entry_ok in H.
+  apply andb_true_iff in H; destruct H as [H _]. apply andb_true_iff in H; destruct H as [H _].
+  apply andb_true_iff in H; destruct H as [_ H]. exact H.
+Qed.
+
+(* ---- dictionaries: the members of a nested object *)
+Definition dict_go (dp : list bstr) : list (bstr * jjv) -> jstate -> jstep :=
+  fix go (l : list (bstr * jjv)) (s : jstate) : jstep :=
+    match l with
+    | [] => JOk s
+    | (k, x) :: rest =>
+        match j_entries (dp ++ [k]) with
+        | [] => JErr s (EFront 22)
+        | _ => match j_handle (dp ++ [k]) x s with
+               | JOk s' => go rest s'
+               | JErr s' e => JErr s' e
+               end
+        end
+    end.
+
+Lemma dict_go_nil : forall dp s, dict_go dp [] s = JOk s.
+Proof. reflexivity. Qed.
+Lemma dict_go_cons : forall dp k x rest s,
+  dict_go dp ((k, x) :: rest) s =
+  match j_entries (dp ++ [k]) with
+  | [] => JErr s (EFront 22)
+  | _ => match j_handle (dp ++ [k]) x s with JOk s' => dict_go dp rest s' | JErr s' e => JErr s' e end
+  end.
+Proof. reflexivity. Qed.
+
+Definition dict_walk (dp : list bstr) (h : bstr) (l : list (bstr * jjv)) (s : jstate) : jstep :=
+  match j_begin_dict h l s with
+  | JErr s' e => JErr s' e
+  | JOk s1 => match dict_go dp l s1 with
+              | JOk s2 => j_end_dict h s2
+              | JErr s' e => JErr s' e
+              end
+  end.
+
+Lemma j_handle_obj_eq : forall p l s,
+  j_handle p (JJObj l) s =
+  match find is_jmanual (j_entries p) with
+  | Some e => if is_ignore (handler_name e) then JOk s else JErr s (EFront 22)
+  | None =>
+    match find is_jdict (j_entries p) with
+    | Some e => dict_walk p (handler_name e) l s
+    | None =>
+        if match find is_jarray (j_entries p) with Some _ => true | None => false end
+        then match find is_jdict (j_entries (p ++ [ARRK])) with
+             | Some e2 => dict_walk (p ++ [ARRK]) (handler_name e2) l s
+             | None => JErr s (EFront 22)
+             end
+        else JErr s (EFront 22)
+    end
+  end.
+Proof. intros. reflexivity. Qed.
+
+Fixpoint sub_members_ok (p : list bstr) (l : list (bstr * jjv)) : bool :=
+  match l with
+  | [] => true
+  | (k, x) :: r => (if schema_has_child p k then check_schema (p ++ [k]) x else false) && sub_members_ok p r
+  end.
+
+Lemma check_schema_obj : forall k0 p l, schema_node (k0 :: p) = Some SDict ->
+  check_schema (k0 :: p) (JJObj l) = sub_members_ok (k0 :: p) l.
+Proof.
+  intros k0 p l H. induction l as [|[k x] l IH].
+  - cbn [check_schema sub_members_ok]. rewrite H. reflexivity.
+  - cbn [check_schema sub_members_ok] in *. rewrite H in *. rewrite IH. reflexivity.
+Qed.
+
+(* table facts for the options of a nested table living at JSON path dp *)
+Definition json_sub_entry_ok (dp : list bstr) (e : aentry) : bool :=
+  scalar_facts (schema_has_child dp (camel (ae_flag e))) (j_entries (dp ++ [camel (ae_flag e)])) (schema_node (dp ++ [camel (ae_flag e)])) e.
+
+Lemma json_global_entries_ok : forallb (json_sub_entry_ok [B"global"]) (filter (sub_opt B"global") argv_table) = true.
+Proof. vm_compute. reflexivity. Qed.
+
+Definition member_of (p : aentry * bstr) : bstr * jjv := (camel (ae_flag (fst p)), JJStr (snd p)).
+
+(* the members standing for the options of a nested table: accepted by the schema, and handled with the calls of denote_subs *)
+Lemma dict_subs : forall t dp,
+  (forall e, In e argv_table -> sub_opt t e = true -> json_sub_entry_ok dp e = true) ->
+  forall l, wf_subs t l -> forall k0 dp', dp = k0 :: dp' ->
+  sub_members_ok dp (map member_of l) = true /\
+  forall s, exists k, dict_go dp (map member_of l) s =
+            if snd (denote_subs l) then JOk (j_emits (fst (denote_subs l)) s)
+            else JErr (j_emits (fst (denote_subs l)) s) (EFront k).
+Proof.
+  intros t dp Hfacts. induction l as [|[e v] l IH]; intros Hwf k0 dp' Hdp.
+  - split; [reflexivity|]. intros s. exists 0. reflexivity.
+  - pose proof (Forall_inv Hwf) as [Hin Hsub]. pose proof (Forall_inv_tail Hwf) as Hl. cbn [fst snd] in *.
+    destruct (sub_opt_cfg_opt _ e Hsub) as [Hm Htb].
+    pose proof (argv_ok_shape e (entry_ok_of_wf e Hin Hm)) as Hshape.
+    destruct (scalar_facts_inv _ _ _ _ (Hfacts e Hin Hsub)) as [Hc [Hok Hn]].
+    destruct (scalar_ok_on_inv _ _ Hok) as [Hne _].
+    destruct (IH Hl k0 dp' Hdp) as [IH1 IH2].
+    split.
+    + cbn [map]. change (member_of (e, v)) with (camel (ae_flag e), JJStr v). cbn [sub_members_ok]. rewrite Hc. rewrite check_schema_str.
+      replace (match dp ++ [camel (ae_flag e)] with [] => Some SDict | _ :: _ => schema_node (dp ++ [camel (ae_flag e)]) end)
+        with (schema_node (dp ++ [camel (ae_flag e)])) by (rewrite Hdp; reflexivity).
+      rewrite Hn. exact IH1.
+    + intros s.
+      assert (Hstep : dict_go dp (map member_of ((e, v) :: l)) s =
+                      match (match opt_denote e v with Some c => JOk (j_emit c s) | None => JErr s (EFront (jrej_kind e)) end) with
+                      | JOk s' => dict_go dp (map member_of l) s'
+                      | JErr s' en => JErr s' en
+                      end).
+      { cbn [map]. change (member_of (e, v)) with (camel (ae_flag e), JJStr v). rewrite dict_go_cons.
+        destruct (j_entries (dp ++ [camel (ae_flag e)])) as [|je0 es0] eqn:Hes; [congruence|]. rewrite <- Hes in Hok.
+        rewrite (j_handle_str e (dp ++ [camel (ae_flag e)]) v s Hm Hshape Hok). reflexivity. }
+      cbn [denote_subs]. destruct (opt_denote e v) as [c|].
+      * destruct (IH2 (j_emit c s)) as [k Hk]. exists k. rewrite Hstep. rewrite Hk.
+        destruct (denote_subs l) as [cs ok]. cbn. reflexivity.
+      * exists (jrej_kind e). rewrite Hstep. reflexivity.
+Qed.
+
+Lemma global_node_facts :
+  schema_has_child [] B"global" = true /\ schema_node [B"global"] = Some SDict /\ is_nil (j_entries [B"global"]) = false /\
+  find is_jmanual (j_entries [B"global"]) = None /\
+  find is_jdict (j_entries [B"global"]) = Some (mk_jentry [B"global"] JDict [] (TManual B"beginGlobal")).
+Proof. vm_compute. repeat split; reflexivity. Qed.
+
+Lemma global_begin_end : forall l s,
+  j_begin_dict B"beginGlobal" l s = JOk (j_emit (CCall C_MAIN B"global" []) s) /\
+  j_end_dict B"beginGlobal" s = JOk (j_emit (CCall C_GLOBAL B"endGlobal" []) s).
+Proof. intros. split; reflexivity. Qed.
+
 Lemma manual_member : forall (k h x : bstr) s c,
   find is_jmanual (j_entries [k]) = Some (mk_jentry [k] JManual [] (TManual h)) -> is_nil (j_entries [k]) = false ->
   schema_has_child [] k = true -> schema_node [k] = Some SString -> is_ignore h = false ->
@@ -717,13 +932,32 @@ Proof.
   rewrite (j_handle_manual [k] x s _ M I). exact J.
 Qed.
 
-Definition jitem_rej (it : item) : N := match it with IOpt e _ | IArr e _ => jrej_kind e | _ => 0 end.
+Lemma j_emits_app : forall c1 c2 s, j_emits (c1 ++ c2) s = j_emits c2 (j_emits c1 s).
+Proof. induction c1; simpl; intros c2 s; [reflexivity|apply IHc1]. Qed.
 
-Lemma argv_ok_shape : forall e, argv_entry_ok e = true -> choices_shape e = true.
+(* a top-level key holding a dictionary with begin/end handlers that make one call each *)
+Lemma dict_member : forall (k h : bstr) l cs (ok : bool) s kk (beginc endc : cfg_call),
+  schema_has_child [] k = true -> schema_node [k] = Some SDict -> is_nil (j_entries [k]) = false ->
+  find is_jmanual (j_entries [k]) = None -> find is_jdict (j_entries [k]) = Some (mk_jentry [k] JDict [] (TManual h)) ->
+  sub_members_ok [k] l = true ->
+  j_begin_dict h l s = JOk (j_emit beginc s) ->
+  (forall s2, j_end_dict h s2 = JOk (j_emit endc s2)) ->
+  dict_go [k] l (j_emit beginc s) =
+    (if ok then JOk (j_emits cs (j_emit beginc s)) else JErr (j_emits cs (j_emit beginc s)) (EFront kk)) ->
+  (if schema_has_child [] k then check_schema [k] (JJObj l) else false) = true /\
+  j_entries [k] <> [] /\
+  j_handle [k] (JJObj l) s =
+    if ok then JOk (j_emits (beginc :: cs ++ [endc]) s) else JErr (j_emits (beginc :: cs ++ []) s) (EFront kk).
 Proof.
-  intros e H. unfold argv_entry_ok in H.
-  apply andb_true_iff in H; destruct H as [H _]. apply andb_true_iff in H; destruct H as [H _].
-  apply andb_true_iff in H; destruct H as [_ H]. exact H.
+  intros k h l cs ok s kk beginc endc G1 G2 G3 G4 G5 D1 B1 B2 Hgo.
+  split.
+  { rewrite G1. rewrite (check_schema_obj k [] _ G2). exact D1. }
+  split.
+  { intro H. rewrite H in G3. discriminate. }
+  rewrite j_handle_obj_eq. rewrite G4, G5. cbn [handler_name je_target]. unfold dict_walk.
+  rewrite B1. rewrite Hgo. destruct ok.
+  - rewrite B2. cbn [j_emits]. rewrite j_emits_app. reflexivity.
+  - cbn [j_emits]. rewrite app_nil_r. reflexivity.
 Qed.
 
 (* one member of the job object: accepted by the schema, and handled with exactly the calls of its denotation *)
@@ -731,40 +965,61 @@ Lemma j_member : forall it s, wf_item argv_table it ->
   let k := fst (json_of_item it) in let v := snd (json_of_item it) in
   (if schema_has_child [] k then check_schema [k] v else false) = true /\
   j_entries [k] <> [] /\
-  j_handle [k] v s =
+  exists kind, j_handle [k] v s =
   if snd (denote_item it) then JOk (j_emits (fst (denote_item it)) s)
-  else JErr (j_emits (fst (denote_item it)) s) (EFront (jitem_rej it)).
+  else JErr (j_emits (fst (denote_item it)) s) (EFront kind).
 Proof.
   intros it s Hwf. destruct manual_key_facts as
     [M1 [M2 [M3 [M4 [N1 [N2 [N3 [N4 [C1 [C2 [C3 [C4 [S1 [S2 [S3 S4]]]]]]]]]]]]]]].
-  destruct it as [e v|e vs|f|f| |]; cbn [json_of_item fst snd denote_item jitem_rej].
+  destruct it as [e v|e vs|f|f| | |l]; cbn [json_of_item fst snd denote_item].
   - (* IOpt *)
     destruct Hwf as [Hin Hs].
-    assert (Hm : main_opt e = true) by (unfold main_opt; rewrite Hs; reflexivity).
+    assert (Hm0 : main_opt e = true) by (unfold main_opt; rewrite Hs; reflexivity).
+    destruct (main_opt_cfg_opt e Hm0) as [Hm _].
     pose proof (argv_ok_shape e (entry_ok_of_wf e Hin Hm)) as Hshape.
     destruct (json_scalar_facts e Hin Hs) as [Hc [Hok Hn]].
     destruct (scalar_ok_on_inv _ _ Hok) as [Hne _].
     rewrite Hc. rewrite check_schema_str. rewrite Hn. split; [reflexivity|]. split; [exact Hne|].
-    rewrite (j_handle_str e _ v s Hm Hshape Hok). destruct (opt_denote e v); reflexivity.
+    exists (jrej_kind e). rewrite (j_handle_str e _ v s Hm Hshape Hok). destruct (opt_denote e v); reflexivity.
   - (* IArr *)
     destruct Hwf as [Hin Ha].
-    assert (Hm : main_opt e = true) by (unfold main_opt; rewrite Ha; apply orb_true_r).
+    assert (Hm0 : main_opt e = true) by (unfold main_opt; rewrite Ha; apply orb_true_r).
+    destruct (main_opt_cfg_opt e Hm0) as [Hm _].
     pose proof (argv_ok_shape e (entry_ok_of_wf e Hin Hm)) as Hshape.
     destruct (json_array_facts e Hin Ha) as [Hc [Hman [[je [Harr Hnoop]] [Hne [Hok [Hn1 Hn2]]]]]].
     rewrite Hc. rewrite (check_schema_arr _ _ Hn1). rewrite (all_items_str _ vs Hn2). split; [reflexivity|]. split; [exact Hne|].
+    exists (jrej_kind e).
     rewrite j_handle_arr_eq. rewrite Hman, Harr.
     destruct (noop_array_begin_end (handler_name je) s Hnoop) as [Hb _]. rewrite Hb.
     cbn [app]. rewrite (arr_go_vals e _ Hm Hshape Hok vs s).
     destruct (denote_vals e vs) as [cs ok]. cbn [fst snd]. destruct ok; [|reflexivity].
     destruct (noop_array_begin_end (handler_name je) (j_emits cs s) Hnoop) as [_ He]. exact He.
   - (* IIn *)
-    apply (manual_member B"inputFile" B"setupInputFile" f s _ M1 N1 C1 S1); reflexivity.
+    destruct (manual_member B"inputFile" B"setupInputFile" f s _ M1 N1 C1 S1 eq_refl eq_refl) as [X1 [X2 X3]].
+    split; [exact X1|]. split; [exact X2|]. exists 0. exact X3.
   - (* IOut *)
-    apply (manual_member B"outputFile" B"setupOutputFile" f s _ M2 N2 C2 S2); reflexivity.
+    destruct (manual_member B"outputFile" B"setupOutputFile" f s _ M2 N2 C2 S2 eq_refl eq_refl) as [X1 [X2 X3]].
+    split; [exact X1|]. split; [exact X2|]. exists 0. exact X3.
   - (* IEmpty *)
-    apply (manual_member B"empty" B"setupEmpty" [] s _ M3 N3 C3 S3); reflexivity.
+    destruct (manual_member B"empty" B"setupEmpty" [] s _ M3 N3 C3 S3 eq_refl eq_refl) as [X1 [X2 X3]].
+    split; [exact X1|]. split; [exact X2|]. exists 0. exact X3.
   - (* IReplace *)
-    apply (manual_member B"replaceInput" B"setupReplaceInput" [] s _ M4 N4 C4 S4); reflexivity.
+    destruct (manual_member B"replaceInput" B"setupReplaceInput" [] s _ M4 N4 C4 S4 eq_refl eq_refl) as [X1 [X2 X3]].
+    split; [exact X1|]. split; [exact X2|]. exists 0. exact X3.
+  - (* IGlobal *)
+    cbn [wf_item] in Hwf. fold (wf_subs B"global" l) in Hwf.
+    destruct global_node_facts as [G1 [G2 [G3 [G4 G5]]]].
+    assert (Hfacts : forall e, In e argv_table -> sub_opt B"global" e = true -> json_sub_entry_ok [B"global"] e = true).
+    { intros e Hin Hsub. pose proof json_global_entries_ok as H. rewrite forallb_forall in H. apply H. apply filter_In. auto. }
+    destruct (dict_subs B"global" [B"global"] Hfacts l Hwf B"global" [] eq_refl) as [D1 D2].
+    change (map (fun p : aentry * bstr => (camel (ae_flag (fst p)), JJStr (snd p))) l) with (map member_of l).
+    destruct (D2 (j_emit (CCall C_MAIN B"global" []) s)) as [k Hk].
+    destruct (global_begin_end (map member_of l) s) as [B1 _].
+    destruct (dict_member B"global" B"beginGlobal" (map member_of l) (fst (denote_subs l)) (snd (denote_subs l)) s k
+                (CCall C_MAIN B"global" []) (CCall C_GLOBAL B"endGlobal" []) G1 G2 G3 G4 G5 D1 B1
+                (fun s2 => proj2 (global_begin_end [] s2)) Hk) as [X1 [X2 X3]].
+    split; [exact X1|]. split; [exact X2|]. exists k. rewrite X3.
+    destruct (denote_subs l) as [cs ok]. cbn [fst snd]. destruct ok; reflexivity.
 Qed.
 
 Lemma members_ok_job : forall j, Forall (wf_item argv_table) j -> members_ok (map json_of_item j) = true.
@@ -775,9 +1030,6 @@ Proof.
   rewrite H1. exact (IH Hj).
 Qed.
 
-Lemma j_emits_app : forall c1 c2 s, j_emits (c1 ++ c2) s = j_emits c2 (j_emits c1 s).
-Proof. induction c1; simpl; intros c2 s; [reflexivity|apply IHc1]. Qed.
-
 Lemma j_top_job : forall j s, Forall (wf_item argv_table) j ->
   exists k, j_top_members (map json_of_item j) s =
   if snd (denote_items j) then JOk (j_emits (fst (denote_items j)) s)
@@ -785,14 +1037,14 @@ Lemma j_top_job : forall j s, Forall (wf_item argv_table) j ->
 Proof.
   induction j as [|it j IH]; intros s H.
   - exists 0. reflexivity.
-  - inversion H as [|? ? Hit Hj]; subst.
+  - pose proof (Forall_inv H) as Hit. pose proof (Forall_inv_tail H) as Hj.
     cbn [map j_top_members denote_items]. destruct (json_of_item it) as [k v] eqn:Hk.
-    destruct (j_member it s Hit) as [_ [Hne Hh]]. rewrite Hk in Hne, Hh. cbn [fst snd] in Hne, Hh.
+    destruct (j_member it s Hit) as [_ [Hne [kind Hh]]]. rewrite Hk in Hne, Hh. cbn [fst snd] in Hne, Hh.
     destruct (j_entries [k]) as [|je0 es0] eqn:Hes; [congruence|].
     rewrite Hh. destruct (denote_item it) as [cs ok]. cbn [fst snd]. destruct ok.
     + destruct (IH (j_emits cs s) Hj) as [k2 IH2]. exists k2. rewrite IH2.
       destruct (denote_items j) as [cs2 ok2]. cbn [fst snd]. rewrite j_emits_app. reflexivity.
-    + exists (jitem_rej it). reflexivity.
+    + exists kind. reflexivity.
 Qed.
 
 Lemma json_refines_spec_partial_lemma : forall j, Forall (wf_item argv_table) j ->
